@@ -163,6 +163,18 @@ def build_job(job):
         if rc != 0:
             return 'goto-instrument failed: ' + se[-2000:]
     job.gb = gb
+    # drop --unwindset entries that name functions absent from this binary (cbmc rejects unknown identifiers);
+    # an absent function cannot be unwound at all, so nothing is lost
+    if job.unwindset:
+        rc, so, se = sh(['goto-instrument', '--list-goto-functions', gb], timeout=120)
+        fns = set(re.findall(r'^(\S+) /\*', so, re.M))
+        libc = {'memcmp', 'memcpy', 'memmove', 'memset', 'strlen', 'strcmp', 'strncmp', 'strcpy', 'strncpy', 'strchr', 'strdup', 'strcat', 'strstr', 'strtol', 'atoi', 'calloc', 'realloc'}
+        keep = []
+        for ent in job.unwindset:
+            fn = ent.split(':')[0].split('.')[0]
+            if fn in fns or fn in libc:
+                keep.append(ent)
+        job.unwindset = keep
     if job.unwind_by_func:
         loops = show_loops(gb)
         for fn, bounds in job.unwind_by_func.items():
